@@ -1,6 +1,7 @@
 (* Evaluates the model on the cases recorded from the implementation and compares.
    The driver writes cases_<k>.v files that apply [run_cases] to a literal case list. *)
 From HbsLms Require Import Base.Bytes Model.Consts Model.Winternitz Model.Counter Model.KeyBlob.
+From HbsLms Require Import Model.Lmots Model.Lms Model.Derive Model.Codec Model.Hss Model.SignCore.
 From HbsLms Require Import Gen.Generated Exec.Sha256.
 
 Local Open Scope N_scope.
@@ -26,7 +27,14 @@ Inductive case :=
 | COtsParam (n : nat) (ty : N) (expect : res (list N))
 | CCoefs (s : bytes) (w : N) (expect : res bytes)
 | CDigits (n : nat) (ty : N) (q : bytes) (expect : res bytes)
-| CCounter (n : nat) (blob : bytes) (digits : res (list N)) (next : res bytes) (life : res N).
+| CCounter (n : nat) (blob : bytes) (digits : res (list N)) (next : res bytes) (life : res N)
+(* variants = enum discriminants of (LmotsAlgorithm, LmsAlgorithm) per level *)
+| CKeygen (n : nat) (variants : list (N * N)) (seed : bytes) (sk pk : res bytes)
+| CSign (n : nat) (blob msg : bytes) (accept : bool) (sig : res bytes) (calls : list (bytes * bool))
+| CVerify (n : nat) (msg sig pk : bytes) (verdict : res unit)
+| CLifetime (n : nat) (blob : bytes) (life : res N)
+| COtsPub (n : nat) (I : bytes) (q : N) (seed : bytes) (ty : N) (out : res bytes)
+| COtsSign (n : nat) (I : bytes) (q : N) (seed : bytes) (ty : N) (C msg : bytes) (out : res bytes).
 
 Definition K := K_src.
 
@@ -45,11 +53,53 @@ Definition model_digits (n : nat) (ty : N) (q : bytes) : res bytes :=
   | None => Err
   end.
 
+Definition Hn (n : nat) : bytes -> bytes := sha256_n n.
+
+Fixpoint params_of_variants (n : nat) (vs : list (N * N)) : option (list (otsp * lmsp)) :=
+  match vs with
+  | [] => Some []
+  | (ov, lv) :: r =>
+    match ots_construct K n ov, lms_construct K lv, params_of_variants n r with
+    | Some o, Some l, Some rest => Some ((o, l) :: rest)
+    | _, _, _ => None
+    end
+  end.
+
+Definition model_keygen (n : nat) (vs : list (N * N)) (seed : bytes) : res (bytes * bytes) :=
+  match params_of_variants n vs with
+  | Some ps => keygen K n (Hn n) ps seed
+  | None => Panic   (* HssParameter::new panics on a reserved variant; never generated *)
+  end.
+
+Definition fst_res {A B} (r : res (A * B)) : res A :=
+  match r with Ok (a, _) => Ok a | Err => Err | Panic => Panic end.
+Definition snd_res {A B} (r : res (A * B)) : res B :=
+  match r with Ok (_, b) => Ok b | Err => Err | Panic => Panic end.
+
+Definition calls_eqb (a b : list (bytes * bool)) : bool :=
+  list_eqb (fun x y => bytes_eqb (fst x) (fst y) && Bool.eqb (snd x) (snd y)) a b.
+
+Definition model_ots_pub (n : nat) (I : bytes) (q : N) (seed : bytes) (ty : N) : res bytes :=
+  match ots_of_type K n ty with
+  | Some p => Ok (ots_pub K n (Hn n) I q seed p)
+  | None => Err
+  end.
+
+Definition model_ots_sign (n : nat) (I : bytes) (q : N) (seed : bytes) (ty : N) (C msg : bytes) : res bytes :=
+  match ots_of_type K n ty with
+  | Some p => Ok (ots_sig_bytes p C (ots_sign_ys K n (Hn n) I q seed p C msg))
+  | None => Err
+  end.
+
 (* what the model says for a case, rendered for replay files *)
 Inductive shown :=
 | SBytes (r : res String.string)
 | SNums (r : res (list N))
-| SCounter (d : res (list N)) (nx : res String.string) (l : res N).
+| SCounter (d : res (list N)) (nx : res String.string) (l : res N)
+| SSign (r : res String.string) (calls : list (String.string * bool))
+| SVerdict (r : res unit)
+| SNum (r : res N)
+| SPair (a b : res String.string).
 
 Definition hexr (r : res bytes) : res String.string :=
   match r with Ok b => Ok (hex b) | Err => Err | Panic => Panic end.
@@ -61,6 +111,15 @@ Definition model_of (c : case) : shown :=
   | CDigits n ty q _ => SBytes (hexr (model_digits n ty q))
   | CCounter n blob _ _ _ =>
     SCounter (hook_leaf_digits K n blob) (hexr (hook_increment K n blob)) (hook_lifetime K n blob)
+  | CKeygen n vs seed _ _ =>
+    let r := model_keygen n vs seed in SPair (hexr (fst_res r)) (hexr (snd_res r))
+  | CSign n blob msg acc _ _ =>
+    let (r, cs) := sign_core K n (Hn n) blob msg (fun _ => acc) in
+    SSign (hexr r) (map (fun c => (hex (fst c), snd c)) cs)
+  | CVerify n msg sig pk _ => SVerdict (hss_verify K n (Hn n) msg sig pk)
+  | CLifetime n blob _ => SNum (get_lifetime K n blob)
+  | COtsPub n tid q seed ty _ => SBytes (hexr (model_ots_pub n tid q seed ty))
+  | COtsSign n tid q seed ty C msg _ => SBytes (hexr (model_ots_sign n tid q seed ty C msg))
   end.
 
 Definition run_case (c : case) : bool :=
@@ -72,6 +131,16 @@ Definition run_case (c : case) : bool :=
     res_eqb (list_eqb N.eqb) (hook_leaf_digits K n blob) d
     && res_eqb bytes_eqb (hook_increment K n blob) nx
     && res_eqb N.eqb (hook_lifetime K n blob) l
+  | CKeygen n vs seed sk pk =>
+    let r := model_keygen n vs seed in
+    res_eqb bytes_eqb (fst_res r) sk && res_eqb bytes_eqb (snd_res r) pk
+  | CSign n blob msg acc sig calls =>
+    let (r, cs) := sign_core K n (Hn n) blob msg (fun _ => acc) in
+    res_eqb bytes_eqb r sig && calls_eqb cs calls
+  | CVerify n msg sig pk v => res_eqb (fun _ _ => true) (hss_verify K n (Hn n) msg sig pk) v
+  | CLifetime n blob l => res_eqb N.eqb (get_lifetime K n blob) l
+  | COtsPub n tid q seed ty out => res_eqb bytes_eqb (model_ots_pub n tid q seed ty) out
+  | COtsSign n tid q seed ty C msg out => res_eqb bytes_eqb (model_ots_sign n tid q seed ty C msg) out
   end.
 
 (* ids of the cases on which model and implementation differ *)
